@@ -49,6 +49,12 @@ def run(job: Dict[str, Any]) -> Dict[str, Any]:
     try:
         r = fn(**args)
         out["result"] = bool(r)
+        if out["result"] and job.get("strong"):
+            # A second identical call in the same interpreter: a counterexample that only shows once the library
+            # carries state from an earlier call (a cache, a mutated input) is still a failure of the real code.
+            r2 = fn(**args)
+            out["result"] = bool(r2)
+            out["second_call"] = True
     except Exception as e:  # noqa: BLE001
         out["result"] = None
         out["exception"] = f"{type(e).__name__}: {e}"
